@@ -55,16 +55,17 @@ type wround struct {
 }
 
 type wscript struct {
-	shape   int // 0 unary, 1 server stream, 2 client stream, 3 bidi
-	rounds  []wround
-	term    int
-	code    codes.Code
-	emsg    string
-	ekind   int  // how the handler builds the error it returns: 0 status error, 1 status error wrapped with %w, 2 plain Go error
-	mutate  bool // the sender scribbles over a message right after sending it
-	mdReuse bool // the handler keeps changing the metadata map it handed to SetHeader / SendHeader / SetTrailer
-	preDone bool // cancel/deadline terminals: the context is already cancelled / past its deadline when the call is made
-	late    bool // cancel/deadline terminals: the handler does not watch its context, it returns only when told to after the client is done
+	shape      int // 0 unary, 1 server stream, 2 client stream, 3 bidi
+	rounds     []wround
+	term       int
+	code       codes.Code
+	emsg       string
+	ekind      int  // how the handler builds the error it returns: 0 status error, 1 status error wrapped with %w, 2 plain Go error
+	mutate     bool // the sender scribbles over a message right after sending it
+	mdReuse    bool // the handler keeps changing the metadata map it handed to SetHeader / SendHeader / SetTrailer
+	lateCancel bool // return terminals on streams: the client cancels its context only after the call has completely ended on the server side and everything has come to rest, then reads the outcome
+	preDone    bool // cancel/deadline terminals: the context is already cancelled / past its deadline when the call is made
+	late       bool // cancel/deadline terminals: the handler does not watch its context, it returns only when told to after the client is done
 }
 
 func (s wscript) String() string {
@@ -86,7 +87,7 @@ func (s wscript) String() string {
 		}
 	}
 	term := []string{"return-ok", fmt.Sprintf("return(%s,%q,%s)", s.code, s.emsg, []string{"status", "wrapped-status", "plain-error"}[s.ekind]), "client-cancel", "deadline"}[s.term]
-	return fmt.Sprintf("%s [%s] %s mutate=%v late-handler=%v md-reuse=%v pre-done=%v", []string{"unary", "sstream", "cstream", "bidi"}[s.shape], strings.Join(p, " "), term, s.mutate, s.late, s.mdReuse, s.preDone)
+	return fmt.Sprintf("%s [%s] %s mutate=%v late-handler=%v md-reuse=%v pre-done=%v late-cancel=%v", []string{"unary", "sstream", "cstream", "bidi"}[s.shape], strings.Join(p, " "), term, s.mutate, s.late, s.mdReuse, s.preDone, s.lateCancel)
 }
 
 func genWrapScript(t *Tape) wscript {
@@ -129,6 +130,11 @@ func genWrapScript(t *Tape) wscript {
 	}
 	// cancel / deadline need a server->client synchronisation as the last exchange, so that the server has consumed
 	// everything the client sent ("the party that cancels does so after having received exactly j messages")
+	if (s.term == tReturnOK || s.term == tReturnErr) && (s.shape == 1 || s.shape == 3) && t.Flag(1, 5) {
+		// (not for client-streaming calls: their response is a send that only meets its receiver in CloseAndRecv, so a
+		// handler that is to finish before the client looks would rely on transport buffering - outside the statement)
+		s.lateCancel = true
+	}
 	if (s.term == tCancel || s.term == tDeadline) && t.Flag(1, 6) {
 		// the call is made with a context that is already done: whatever the script says, the client must see the call
 		// end as cancelled / past its deadline (the handler, if it runs at all, sees a done context)
@@ -361,7 +367,7 @@ func (sv *scriptServer) BidiStream(st grpc.BidiStreamingServer[testproto.BidiStr
 
 // ---- the scripted client ----------------------------------------------------------------------------------------------------
 
-func runWrapClient(s wscript, client testproto.TestApiClient, yield func(string), tr *transcript, setCancel func(context.CancelFunc), release chan struct{}) {
+func runWrapClient(s wscript, client testproto.TestApiClient, yield func(string), quiesce func(), tr *transcript, setCancel func(context.CancelFunc), release chan struct{}) {
 	defer close(release)
 	ctx, cancel := context.WithCancel(context.Background())
 	defer cancel()
@@ -546,6 +552,15 @@ func runWrapClient(s wscript, client testproto.TestApiClient, yield func(string)
 	if s.term == tCancel {
 		cancel()
 	}
+	if s.lateCancel {
+		// the handler has long returned and its status has arrived: cancelling now must not change what the call reports
+		if closeSend != nil && !halfClosed {
+			_ = closeSend()
+			halfClosed = true
+		}
+		quiesce()
+		cancel()
+	}
 	switch {
 	case finish != nil:
 		m, err := finish()
@@ -597,7 +612,7 @@ func runReference(s wscript) transcript {
 		tr.client = append(tr.client, "dial error: "+err.Error())
 		return tr
 	}
-	runWrapClient(s, testproto.NewTestApiClient(conn), func(string) {}, &tr, func(c context.CancelFunc) { cancelClient = c }, sv.release)
+	runWrapClient(s, testproto.NewTestApiClient(conn), func(string) {}, func() { time.Sleep(time.Second) }, &tr, func(c context.CancelFunc) { cancelClient = c }, sv.release)
 	_ = conn.Close()
 	gs.Stop()
 	<-done
@@ -651,7 +666,7 @@ func wrapRun(w *World) {
 	conn := wrap.ServerToClient(testproto.TestApi_ServiceDesc, sv)
 	client := testproto.NewTestApiClient(conn)
 	w.Go("cli", false, func(t *Task) {
-		runWrapClient(s, client, func(op string) { t.Yield(op) }, &tr, func(c context.CancelFunc) { cancelClient = c }, sv.release)
+		runWrapClient(s, client, func(op string) { t.Yield(op) }, func() { t.Settle("quiesce") }, &tr, func(c context.CancelFunc) { cancelClient = c }, sv.release)
 	})
 	if s.term == tDeadline {
 		w.IdleAdvance, w.IdleAdvanceN = 4*time.Second, 3
